@@ -1410,10 +1410,17 @@ class SyncObj(object):
                 for i, consumer in enumerate(self.__consumers):
                     consumer._deserialize(consumersData[i])
 
-            if clearJournal or \
-                    len(self.__raftLog) < 2 or \
-                    self.__raftLog[0] != data[2] or \
-                    self.__raftLog[1] != data[1]:
+            if not clearJournal:
+                # The journal is trimmed one tick after the dump is written. If the node was stopped
+                # in between, the journal still starts before the dump: keep it when it holds the
+                # dump's two entries at their position (and finish the trim), otherwise replace it.
+                dumpPos = data[2][1] - self.__raftLog[0][1]
+                if dumpPos < 0 or self.__raftLog[dumpPos:dumpPos + 2] != [data[2], data[1]]:
+                    clearJournal = True
+                elif dumpPos > 0:
+                    self.__deleteEntriesTo(data[2][1])
+
+            if clearJournal:
                 self.__raftLog.clear()
                 self.__raftLog.add(*data[2])
                 self.__raftLog.add(*data[1])
